@@ -5,6 +5,7 @@ From Coq Require Import ZArith List Bool Lia Permutation.
 From BV Require Import Lib.PyVal Lib.Cases Model.Reassembly Gen.K_reassembly
      Proofs.ReassemblyProofs Proofs.ReassemblyGenProofs Proofs.ReassemblyImapProofs
      Proofs.ReassemblyChunkedProofs Proofs.ReassemblyFailureProofs.
+From BV Require Model.Pool Proofs.PoolInv Model.PoolParts Proofs.PoolPartsProofs.
 Import ListNotations.
 Open Scope Z_scope.
 
@@ -575,3 +576,34 @@ Proof.
   - reflexivity.
   - vm_compute. reflexivity.
 Qed.
+
+(* ------------------------------------------------------------------------------------------
+   The crash-free CLOSED system for multi-part jobs (Model/PoolParts.v, Proofs/PoolPartsProofs.v):
+   client calls (apply, map n cs, imap n, imap_unordered n), the task handler's pass (one atomic feed),
+   workers taking parts in pipe order (ACK then READY per part), the parent handling messages, the
+   consumer calling next().  PARTIAL: proved for every schedule are (a) the parent of every reachable
+   state is a run of the open pool model, so the reassembly and job theorems above apply to it,
+   (b) termination (every step decreases (work, items still to consume) lexicographically: no infinite
+   schedule), (c) where nothing but next() can move, nothing is in flight.  NOT proved in this model:
+   that the stuck state has every job resolved with the sequential value and every iterator drained
+   (the content theorems are the Reassembly theorems of this file, about the handles themselves); on
+   the closed system they are checked by the monitors of `parts_closed_check` on the real code and by
+   the evaluated witnesses below. *)
+Theorem C02_parts_parent_is_the_pool_model : forall c y,
+    PoolPartsProofs.preach c y -> exists tr, PoolParts.ppar y = Pool.run c tr.
+Proof. exact PoolPartsProofs.preach_is_run. Qed.
+Print Assumptions C02_parts_parent_is_the_pool_model.
+
+Theorem C02_parts_every_schedule_terminates_partial : forall c y,
+    PoolPartsProofs.preach c y ->
+    Acc (fun y' y0 => PoolInv.AllJ (PoolParts.ppar y0) /\ exists a, PoolParts.parts_step y0 a = Some y') y.
+Proof. exact PoolPartsProofs.reachable_schedules_terminate. Qed.
+Print Assumptions C02_parts_every_schedule_terminates_partial.
+
+Theorem C02_parts_stuck_means_nothing_in_flight_partial : forall c y,
+    1 <= Pool.c_n c -> Pool.c_putlocks c = false -> PoolPartsProofs.preach c y ->
+    (forall a, PoolPartsProofs.is_next a = false -> PoolParts.parts_step y a = None) ->
+    PoolParts.ptodo y = [] /\ Pool.feeds (PoolParts.ppar y) = [] /\ PoolParts.pinq y = []
+    /\ PoolParts.somep (PoolParts.pwk y) = [] /\ PoolParts.poutq y = [].
+Proof. exact PoolPartsProofs.preach_stuck_nothing_in_flight. Qed.
+Print Assumptions C02_parts_stuck_means_nothing_in_flight_partial.
